@@ -386,7 +386,14 @@ func mergeScenario(t *testing.T, rep *report.R) report.Scenario {
 				{Type: v1.PatchTypeFromCompositeFieldPath, FromFieldPath: ptr("spec.list"), ToFieldPath: ptr("spec.list"), Policy: pol},
 				{Type: v1.PatchTypeFromCompositeFieldPath, FromFieldPath: ptr("spec.obj"), ToFieldPath: ptr("spec.obj"), Policy: pol},
 			}},
-			xrh.Template{Name: "b", GVK: xrh.ResB, Patches: []v1.Patch{commonPatch()}},
+			// The second template patches the same paths without merge
+			// options: what is applied for it must not depend on the policy of
+			// the template before it.
+			xrh.Template{Name: "b", GVK: xrh.ResB, Patches: []v1.Patch{
+				commonPatch(),
+				{Type: v1.PatchTypeFromCompositeFieldPath, FromFieldPath: ptr("spec.list"), ToFieldPath: ptr("spec.list")},
+				{Type: v1.PatchTypeFromCompositeFieldPath, FromFieldPath: ptr("spec.obj"), ToFieldPath: ptr("spec.obj")},
+			}},
 		)
 		s := w.s
 		xr := xrh.XR("xr1", "comp")
@@ -403,10 +410,21 @@ func mergeScenario(t *testing.T, rep *report.R) report.Scenario {
 			_ = unstructured.SetNestedSlice(u.Object, []any{"a", "ext"}, "spec", "list")
 			_ = unstructured.SetNestedField(u.Object, "ext", "spec", "obj", "k")
 		})
+		bs := s.All(xrh.ResB.GroupKind())
+		if len(bs) != 1 {
+			panic(explore.HarnessError{Msg: "preparation did not create ResB"})
+		}
+		s.Mutate(simkube.KeyOf(bs[0]), func(u *unstructured.Unstructured) {
+			_ = unstructured.SetNestedSlice(u.Object, []any{"a", "ext"}, "spec", "list")
+			_ = unstructured.SetNestedField(u.Object, "ext", "spec", "obj", "k")
+		})
 		s.Mutate(xrh.XRKey("xr1"), func(u *unstructured.Unstructured) {
 			_ = unstructured.SetNestedField(u.Object, "p2", "spec", "param")
 		})
 		w.quiesce(r)
+		gotB := s.Peek(simkube.KeyOf(bs[0]))
+		listB, _, _ := unstructured.NestedSlice(gotB.Object, "spec", "list")
+		kB, _, _ := unstructured.NestedString(gotB.Object, "spec", "obj", "k")
 		got := s.Peek(simkube.KeyOf(as[0]))
 		list, _, _ := unstructured.NestedSlice(got.Object, "spec", "list")
 		k, _, _ := unstructured.NestedString(got.Object, "spec", "obj", "k")
@@ -414,6 +432,9 @@ func mergeScenario(t *testing.T, rep *report.R) report.Scenario {
 		r.Logf("policy=%v appendSlice=%v keepMapValues=%v: list=%v obj.k=%q param=%q", withPolicy, appendSlice, keepMap, list, k, param)
 		rec := &evalRec{outcome: report.Hash(render(list), k, param), nontrivial: report.Hash("merge", withPolicy, appendSlice, keepMap)}
 		rec.sample = map[string]any{"scenario": name, "policy": withPolicy, "appendSlice": appendSlice, "keepMapValues": keepMap, "list": list, "obj.k": k, "choices": append([]int{}, r.Choices...)}
+		if !looseEqual(listB, []any{"a"}) || kB != "new" {
+			a.fail(r, rec, "compose/merge/leaked-into-next-template", "template b has no merge options, yet after template a (appendSlice=%v keepMapValues=%v) its resource has spec.list %s (want [a]) and spec.obj.k %q (want new); existing [a ext] / ext", appendSlice, keepMap, render(listB), kB)
+		}
 		if param != "p2" {
 			a.fail(r, rec, "compose/merge/not-updated", "composed resource was not updated at all (spec.param %q)", param)
 		}
